@@ -41,6 +41,9 @@ FlavourClause(tr, rs, o, name) ==
     [] (o.spec = "T") # HasSpec(rs, tr.root, tr.iter) -> name \o ":HasSpecificationFollowsTheSpecification"
     [] \E i \in 1..Len(o.strat) : ~o.strat[i].ok \/ SortedSeq(o.strat[i].got) # SortedSeq(o.strat[i].e)
          -> name \o ":HandedBackStrategyReproducesTheRule"
+    \* a rule stored as a two-way equivalence is reproduced as one: the strategy handed back from that store is two-way
+    [] \E i \in 1..Len(o.strat) : o.strat[i].store = "eqv" /\ ~o.strat[i].tw
+         -> name \o ":HandedBackStrategyReproducesTheRule"
     [] OTHER -> "ok"
 Clause(tr, rs, e) ==
   LET rs2 == Insert(rs, tr, e.add)
